@@ -1704,6 +1704,10 @@ class WassersteinDistanceNewton(VariationalWassersteinDistance):
                 failed = True
                 break
 
+        # After a failure, report the distance of the flux that is actually returned
+        if failed:
+            new_distance = self.l1_dissipation(solution_i[self.flux_slice])
+
         # Summarize profiling (time in seconds, memory in GB)
         total_timings = self._analyze_timings(convergence_history["timing"])
         peak_memory_consumption = tracemalloc.get_traced_memory()[1] / 10**9
@@ -2073,6 +2077,10 @@ class WassersteinDistanceBregman(VariationalWassersteinDistance):
                 warnings.warn("Bregman iteration abruptly stopped due to some error.")
                 failed = True
                 break
+
+        # After a failure, report the distance of the flux that is actually returned
+        if failed:
+            new_distance = self.l1_dissipation(flux)
 
         # Solve for the pressure by solving a single Newton iteration
         newton_jacobian, _, _ = self._update_regularization(flux)
